@@ -153,6 +153,8 @@ V('defect-D5-no-handler', ['C03'], 'R-EXC|R-ARB', SW, ("                try:\n  
 V('defect-D5-all-edges', ['C03'], 'R-ARB', SW, ("                    if len(where(latter_indices >= 0)[0]) == 1:  # only arcs that carry no information.\n                        for latter_index in latter_indices:\n                            if latter_index >= 0:\n                                graph.add_edge(u_of_edge=former_index, v_of_edge=latter_index)",
                                                "                    if len(where(latter_indices >= 0)[0]) >= 1:  # only arcs that carry no information.\n                        for latter_index in latter_indices:\n                            if latter_index >= 0:\n                                graph.add_edge(u_of_edge=former_index, v_of_edge=latter_index)"))
 
+V('defect-D9-numpy-modulo', ['C07'], 'R-TYPED', SW, ("vt_value = int(sum(where((values[1:] - values[:-1]) > 0)[0])) % (", "vt_value = sum(where((values[1:] - values[:-1]) > 0)[0]) % ("))
+
 # ---------------------------------------------------------------- R-SHIFT
 V('shift-latters-k-minus-1', ['C13', 'C02', 'C11', 'C03'], 'R-SHIFT', GR, ("% (len(nucleotides) ** observed_length))\n        latters.append", "% (len(nucleotides) ** (observed_length - 1)))\n        latters.append"))
 V('shift-latters-plus1', ['C13', 'C02', 'C11', 'C03'], 'R-SHIFT', GR, ("latter = int((current * len(nucleotides) + latter_value)", "latter = int((current * len(nucleotides) + latter_value + 1)"))
@@ -286,16 +288,16 @@ V('verb-result-depends', ['C20'], 'R-VERB', GR, ("    if verbose:\n        print
 V('verb-passed-as-other-flag', ['C20'], 'R-VERB', SW, ("        quotient = bit_to_number(binary_message, verbose=verbose)", "        quotient = bit_to_number(binary_message, is_string=not verbose or True, verbose=verbose)"))
 
 # ---------------------------------------------------------------- R-VTFORM
-VT_VAL = "vt_value = sum(where((values[1:] - values[:-1]) > 0)[0]) % (len(nucleotides) ** (vt_length - 1))"
+VT_VAL = "vt_value = int(sum(where((values[1:] - values[:-1]) > 0)[0])) % (len(nucleotides) ** (vt_length - 1))"
 V('vt-ge0', ['C07'], 'R-VTFORM', SW, (VT_VAL, VT_VAL.replace(") > 0)[0])", ") >= 0)[0])")))
 V('vt-lt0', ['C07'], 'R-VTFORM', SW, (VT_VAL, VT_VAL.replace(") > 0)[0])", ") < 0)[0])")))
 V('vt-swapped-slices', ['C07'], 'R-VTFORM', SW, (VT_VAL, VT_VAL.replace("values[1:] - values[:-1]", "values[:-1] - values[1:]")))
 V('vt-exponent-n', ['C07'], 'R-VTFORM', SW, (VT_VAL, VT_VAL.replace("** (vt_length - 1))", "** vt_length)")))
 V('vt-width-n', ['C07'], 'R-VTFORM', SW, ("number_to_dna(decimal_number=int(vt_value), dna_length=vt_length - 1)", "number_to_dna(decimal_number=int(vt_value), dna_length=vt_length)"))
-V('vt-positions-plus1', ['C07'], 'R-VTFORM', SW, (VT_VAL, VT_VAL.replace("> 0)[0])", "> 0)[0] + 1)")))
+V('vt-positions-plus1', ['C07'], 'R-VTFORM', SW, (VT_VAL, VT_VAL.replace("> 0)[0]))", "> 0)[0] + 1))")))
 V('vt-flag-mod3', ['C07'], 'R-VTFORM', SW, ("vt_flag = sum(values) % len(nucleotides)", "vt_flag = sum(values) % (len(nucleotides) - 1)"))
 V('vt-flag-first-symbol', ['C07'], 'R-VTFORM', SW, ("vt_flag = sum(values) % len(nucleotides)", "vt_flag = sum(values[:1]) % len(nucleotides)"))
-V('vt-no-modulus', ['C07'], 'R-VTFORM', SW, (VT_VAL, "vt_value = sum(where((values[1:] - values[:-1]) > 0)[0])"))
+V('vt-no-modulus', ['C07'], 'R-VTFORM', SW, (VT_VAL, "vt_value = int(sum(where((values[1:] - values[:-1]) > 0)[0]))"))
 V('vt-offset-slices', ['C07'], 'R-VTFORM', SW, (VT_VAL, VT_VAL.replace("values[1:] - values[:-1]", "values[2:] - values[:-2]")))
 
 # ---------------------------------------------------------------- R-FILTER / GC ordering
